@@ -294,7 +294,7 @@ def _build_call(case):
 def execute(case):
     """-> (status, text): status is 'ValueError', 'returned-value' or 'raised-<Type>'."""
     from numdifftools.finite_difference import FD_RULES
-    FD_RULES.clear()
+    fw.fresh_library_state()
     call = _build_call(case)
     try:
         with warnings.catch_warnings():
